@@ -65,23 +65,34 @@ theorem rangeItv_mem {r : Repn} {w : Nat} {a : Rat} (h : InRangeQ r w a) : (rang
   · show Itv.memHi _ (some (_, false))
     simp only [Itv.memHi, Bool.false_eq_true, ↓reduceIte]; exact_mod_cast h2
 
-/-- an integer of the half-open rational quadrant is in range -/
-theorem inRange_of_quadrant_mem (r : Repn) (w : Nat) (z : Int)
-    (h : (rationalQuadrant true r w).mem (z : Rat)) : inRange r w z := by
-  obtain ⟨h1, h2⟩ := h
-  simp only [rationalQuadrant, Itv.memLo, Itv.memHi, Bool.false_eq_true, ↓reduceIte] at h1 h2
-  have a1 : minValue r w ≤ z := by exact_mod_cast h1
-  have a2 : z < maxValue r w + 1 := by exact_mod_cast h2
-  exact ⟨a1, by omega⟩
+/-- an integer of the quadrant interval is in range (open-boundary types, or the repaired closed one) -/
+theorem inRange_of_quadrant_mem (storeOpen kf10 : Bool) (hk : storeOpen = true ∨ kf10 = false)
+    (r : Repn) (w : Nat) (z : Int)
+    (h : (rationalQuadrant storeOpen kf10 r w).mem (z : Rat)) : inRange r w z := by
+  unfold rationalQuadrant at h
+  cases storeOpen
+  · have hk' : kf10 = false := by rcases hk with h | h; cases h; exact h
+    subst hk'
+    simp only [Bool.false_eq_true, ↓reduceIte] at h
+    obtain ⟨h1, h2⟩ := h
+    simp only [Itv.memLo, Itv.memHi, Bool.false_eq_true, ↓reduceIte] at h1 h2
+    exact ⟨by exact_mod_cast h1, by exact_mod_cast h2⟩
+  · simp only [↓reduceIte] at h
+    obtain ⟨h1, h2⟩ := h
+    simp only [Itv.memLo, Itv.memHi, Bool.false_eq_true, ↓reduceIte] at h1 h2
+    have a1 : minValue r w ≤ z := by exact_mod_cast h1
+    have a2 : z < maxValue r w + 1 := by exact_mod_cast h2
+    exact ⟨a1, by omega⟩
 
-/-- **`Box::wrap_assign` (no guard) is sound** for the repaired interval comparison or when no interval
-has width exactly `2^w`, and — for undefined overflow — when the interval type stores open boundaries -/
-theorem boxWrap_sound (strictTest storeOpen : Bool) (cfg : WrapCfg) (B : List Itv) (v v' : Pt)
+/-- **`Box::wrap_assign` (no guard) is sound** for the interval comparison of the code (or, before the fix
+of defect 12, when no interval has width exactly `2^w`), and — for undefined overflow — when the interval
+type stores open boundaries or the quadrant test is the repaired one -/
+theorem boxWrap_sound (strictTest storeOpen kf10 : Bool) (cfg : WrapCfg) (B : List Itv) (v v' : Pt)
     (himg : Spec.WrapImage cfg v v')
     (h1 : strictTest = false ∨ ∀ I ∈ B, ∀ l lo u uo, I.lo = some (l, lo) → I.hi = some (u, uo) →
       u - l ≠ ((2 : Int) ^ cfg.w : Int))
-    (h2 : cfg.o = .undefined → storeOpen = true)
-    (hB : boxMem B v) : boxMem (boxWrap strictTest storeOpen cfg B) v' := by
+    (h2 : cfg.o = .undefined → storeOpen = true ∨ kf10 = false)
+    (hB : boxMem B v) : boxMem (boxWrap strictTest storeOpen kf10 cfg B) v' := by
   unfold boxMem boxWrap at *
   generalize 0 = i at hB ⊢
   induction B generalizing i with
@@ -112,9 +123,7 @@ theorem boxWrap_sound (strictTest storeOpen : Bool) (cfg : WrapCfg) (B : List It
         simp only []
         split
         · rename_i hcont
-          have hso := h2 ho
-          subst hso
-          have hr := inRange_of_quadrant_mem cfg.r cfg.w z (mem_of_contains _ _ _ hcont hI)
+          have hr := inRange_of_quadrant_mem storeOpen kf10 (h2 ho) cfg.r cfg.w z (mem_of_contains _ _ _ hcont hI)
           rw [coordImage_of_inRange hc' hr]; exact hI
         · exact rangeItv_mem (coordImage_inRange hc')
       | impossible =>
